@@ -253,6 +253,16 @@ def verify_guard(f, s, entry):
                     return False, "offset loop calls %s, which is outside the reviewed set" % c.name
         return True, "character predicates %s accept one-byte characters only" % \
             [p.rsplit("::", 1)[-1] for p in g["ascii_only_fns"]]
+    if "upper_bound" in g:
+        n = g["upper_bound"]
+        for op, l, r, truth in f.cmp_conds_at(s["bb"]):
+            c = f.const_of_operand(r)
+            if not isinstance(c, int):
+                continue
+            if (op == "Gt" and not truth and c <= n) or (op == "Ge" and not truth and c <= n + 1) \
+                    or (op == "Le" and truth and c <= n) or (op == "Lt" and truth and c <= n + 1):
+                return True, "an upper bound <= %d dominates" % n
+        return False, "no upper-bound test (<= %d) dominates this site any more" % n
     if g.get("recorded_in_one_loop"):
         # the indices consumed here were recorded by Vec::push into a list that is consumed with
         # pop(): valid only if all pushes happen in ONE loop over windows().enumerate() (so the
